@@ -223,8 +223,10 @@ class Ctx:
         for v in self.violations:
             k = match_known(known, self.prop_id, v['key'])
             if k:
-                print('KNOWN-FINDING: property=%s %s' % (self.prop_id, k['what']))
-                self.known_printed.append(k['key'])
+                if k['key'] not in self.known_printed:
+                    n = sum(1 for x in self.violations if x['key'] == v['key'])
+                    print('KNOWN-FINDING: property=%s %s (%d failing obligations, all reproduced natively)' % (self.prop_id, k['what'], n))
+                    self.known_printed.append(k['key'])
             else:
                 unknown_viol.append(v)
         n_ob = len(self.obligations)
@@ -253,7 +255,7 @@ class Ctx:
                 'solver_time_s': round(self.solver_s, 2),
                 'witnesses': self.witnesses,
                 'cross_solver': self.cross,
-                'obligation_results': [{k: v for k, v in o.items() if k != 'model'} for o in self.obligations],
+                'obligation_results': summarize_obligations(self.obligations),
                 'inconclusive_reasons': self.inconclusive,
                 'known_findings_matched': self.known_printed,
                 'traces_validated_against_impl': self.translator_validated,
@@ -267,9 +269,14 @@ class Ctx:
         os.makedirs(EVIDENCE_DIR, exist_ok=True)
         with open(os.path.join(EVIDENCE_DIR, self.prop_id + '.json'), 'w') as f:
             json.dump(ev, f, indent=1, default=str)
+        printed = set()
         for v in unknown_viol:
+            if v['key'] in printed:
+                continue
+            printed.add(v['key'])
+            n = sum(1 for x in unknown_viol if x['key'] == v['key'])
             print('VIOLATION property=%s replay=%s' % (self.prop_id, v['replay_path']))
-            print('  obligation: %s  %s' % (v['name'], v.get('detail')))
+            print('  obligation: %s (%d obligations with key %s)  %s' % (v['name'], n, v['key'], str(v.get('detail'))[:1500]))
         if unknown_viol:
             return 1
         if self.inconclusive:
@@ -297,6 +304,22 @@ def _worker(fn, prop_id, tier, seed, timeout_ms, a):
     sub.timeout_ms = timeout_ms
     _worker_body(fn, sub, a)
     return sub.export()
+
+
+def summarize_obligations(obs):
+    """all non-proved obligations, plus per-group counts and the first few proved ones of each group"""
+    if len(obs) <= 300:
+        return [{k: v for k, v in o.items() if k != 'model'} for o in obs]
+    out = [{k: v for k, v in o.items() if k != 'model'} for o in obs if o.get('status') != 'proved'][:200]
+    groups = {}
+    for o in obs:
+        g = groups.setdefault(o.get('group', '?'), {'group': o.get('group', '?'), 'count': 0, 'proved': 0, 'examples': []})
+        g['count'] += 1
+        if o.get('status') == 'proved':
+            g['proved'] += 1
+            if len(g['examples']) < 2:
+                g['examples'].append(o['name'])
+    return out + [{'name': 'group:' + g['group'], 'status': 'summary', **g} for g in groups.values()]
 
 
 def safe(s):
